@@ -48,6 +48,8 @@ type Recorder struct {
 	Fault   *FaultSpec
 	Yield   func(ev *nutsdb.VerifEvent)
 	Discard bool // only yield, record nothing (concurrent runs)
+	// FaultOnly: inject the armed fault but record no events (twin runs that need faults, not traces)
+	FaultOnly bool
 }
 
 var (
@@ -121,12 +123,15 @@ func (r *Recorder) on(ev *nutsdb.VerifEvent) *nutsdb.VerifFault {
 			for p > 0 && allZero(ev.Data[p:]) {
 				p--
 			}
-			if ev.Kind == "write" && p > 0 {
+			if ev.Kind == "write" && p > 0 && !r.FaultOnly {
 				r.Evs = append(r.Evs, Ev{Kind: "write", Path: rel, Off: ev.Off, Size: int64(p), Data: append([]byte(nil), ev.Data[:p]...)})
 			}
 			return &nutsdb.VerifFault{Err: errInjected, Partial: p}
 		}
 		f.seen++
+	}
+	if r.FaultOnly {
+		return nil
 	}
 	e := Ev{Kind: ev.Kind, Path: rel, Off: ev.Off, Size: ev.Size}
 	if ev.Kind == "write" {
@@ -138,7 +143,9 @@ func (r *Recorder) on(ev *nutsdb.VerifEvent) *nutsdb.VerifFault {
 
 func (r *Recorder) Mark(s string) {
 	r.mu.Lock()
-	r.Evs = append(r.Evs, Ev{Kind: "mark", Mark: s})
+	if !r.FaultOnly {
+		r.Evs = append(r.Evs, Ev{Kind: "mark", Mark: s})
+	}
 	if f := r.Fault; f != nil {
 		if s == fmt.Sprintf("begin %d", f.Step) {
 			f.armed = true
